@@ -79,5 +79,10 @@ pub mod spawn_hook {
     pub fn normalized_address(server_name: &str, port: u16) -> NormalizedAddress {
         NormalizedAddress::new_from_parts(server_name, port)
     }
+
+    // --- BEGIN wsE2 C35/C36 (NTS single-server spawner, NTS source config)
+    pub use super::super::config::NtsSourceConfig;
+    pub use super::super::spawn::nts::NtsSpawner;
+    // --- END wsE2 C35/C36
 }
 // --- END C35/C36
